@@ -318,7 +318,14 @@ def run(ctx):
             raw = ar(members)
             desc = dict(control_ext=cext, data_ext=dext, files=[n for n, _ in files], scripts=sorted(scripts), order=[m[0] for m in members])
             try:
-                deb = real.DebFile(fileobj=io.BytesIO(raw))
+                if rng.random() < 0.3:
+                    # the package IS the bytes of the file object handed in, whatever attributes that object carries
+                    fobj = io.BytesIO(raw)
+                    fobj.name = "/nonexistent/verif-c07-not-this-file.deb"
+                    deb = real.DebFile(fileobj=fobj)
+                    desc["fileobj"] = "with a misleading .name"
+                else:
+                    deb = real.DebFile(fileobj=io.BytesIO(raw))
                 got_fields = list(deb.debcontrol().items())
                 got_scripts = deb.scripts()
                 got_md5 = deb.md5sums(encoding="utf-8")
@@ -344,6 +351,17 @@ def run(ctx):
                         via_file = deb.data.get_file(sp).read() if has else None
                     except Exception as e:
                         bad = t.failed("query raised %r" % (e,), package=desc, spelling=sp)
+                        break
+                    # the operator spellings of the same questions
+                    try:
+                        has_in = sp in deb.data
+                        via_item = deb.data[sp] if has else None
+                    except Exception as e:
+                        bad = t.failed("`in` / subscript query raised %r" % (e,), package=desc, spelling=sp)
+                        break
+                    if has_in != has or via_item != content:
+                        bad = t.failed("`name in part` / part[name] disagree with has_file / get_content", package=desc, spelling=sp,
+                                       has_file=has, contains=has_in)
                         break
                     if has != (data is not None) or content != data or via_file != data:
                         bad = t.failed("membership / content differs between spellings or from what was packed", package=desc,
